@@ -2,7 +2,7 @@
     Directives: ExtrOcamlBasic (bool, option, list, prod, unit, sumbool -> OCaml's),
     ExtrOcamlString (ascii -> char, string -> char list). N/positive/nat stay inductive. *)
 From Coq Require Import Extraction ExtrOcamlBasic ExtrOcamlString.
-From IastRw Require Import Ast Generated Config ToConfig SrcMap Literals Model HookSites Known Directives Erase Sites Hygiene Shapes Order.
+From IastRw Require Import Ast Generated Config ToConfig SrcMap Literals Model HookSites Known Directives Erase Sites Hygiene Shapes Order WfTree.
 Extraction Language OCaml.
 Extraction "../ocaml/model.ml"
   kind_of_string string_of_kind node_eqb node_size node_depth
@@ -14,4 +14,5 @@ Extraction "../ocaml/model.ml"
   roundtrip_ok norm_print strip_parens
   to_config prologue_text
   decode_mappings chain lookup find_entry vlq_encode
-  collect order_issues.
+  collect order_issues
+  wf_all has_optchain ns_count.
